@@ -243,7 +243,9 @@ c.modifies("self.env", "self.authkey", "self.init_main_module")
 c = PR.contract("LokyInitMainProcess.__init__", props=["C18"])
 c.param("self", T.Ref("LokyInitMainProcess")).param("group", T.Obj, default=NONE).param("target", T.Obj, default=NONE).param("name", T.Obj, default=NONE)
 c.param("args", T.Obj, default=NONE).param("kwargs", T.Obj, default=NONE).param("daemon", T.Obj, default=NONE)
+c.param("env", T.Map(T.Str, T.Str, nullable=True), default=NONE)
 c.ensures("process/init-main-variant-reloads-main", "self.init_main_module == True", prop="C18")
+c.ensures("process/env-overlay-kept", "implies(env is not None, self.env is env) and implies(env is None, len(self.env) == 0 and fresh(self.env))", prop="C18")
 c.raises_only("process/no-exception")
 c.modifies("self.env", "self.authkey", "self.init_main_module")
 
